@@ -434,4 +434,40 @@ def xSum (vs : List (Option XNum)) : XNum :=
   else if v.contains .ninf then .ninf
   else .fin ((v.filterMap fun x => match x with | .fin i => some i | _ => none).foldl (· + ·) 0)
 
+/-! ### durations on the wire (`std::time::Duration`, read everywhere with `as_millis() as u64`)
+
+The harness builds a case's duration with `Duration::from_millis(n)` (token `<n>`) or `Duration::from_micros(n)` (token `u<n>`,
+durations that are not whole milliseconds); `n : u64`. Every component reads it with `duration.as_millis() as u64`
+(window.rs:45/91/128/279, operators.rs:413/440, stream_alpha_node.rs:135/179/195/226/257/317). `Dur` is the std representation
+(whole seconds + sub-second nanoseconds), `DurArg.ms` is the number of milliseconds the model works with. -/
+
+/-- `std::time::Duration { secs: u64, nanos: u32 }` (`nanos < 10^9`) -/
+structure Dur where
+  secs : Nat
+  nanos : Nat
+deriving Repr, DecidableEq
+
+/-- `Duration::from_millis`: `secs = ms / 1000`, `nanos = (ms % 1000) * 1_000_000` -/
+def Dur.fromMillis (ms : Nat) : Dur := { secs := ms / 1000, nanos := ms % 1000 * 1000000 }
+/-- `Duration::from_micros`: `secs = us / 1_000_000`, `nanos = (us % 1_000_000) * 1000` -/
+def Dur.fromMicros (us : Nat) : Dur := { secs := us / 1000000, nanos := us % 1000000 * 1000 }
+/-- `Duration::as_millis`: `secs * 1000 + nanos / 1_000_000` (a `u128`: no overflow) -/
+def Dur.asMillis (d : Dur) : Nat := d.secs * 1000 + d.nanos / 1000000
+
+/-- the duration token of a case line -/
+inductive DurArg where
+  | millis (n : Nat)
+  | micros (n : Nat)
+deriving Repr, DecidableEq
+
+/-- the `Duration` the harness constructs for the token -/
+def DurArg.dur : DurArg → Dur
+  | .millis n => Dur.fromMillis n
+  | .micros n => Dur.fromMicros n
+
+/-- the whole milliseconds the model (and the oracle) works with: micros are truncated -/
+def DurArg.ms : DurArg → Nat
+  | .millis n => n
+  | .micros n => n / 1000
+
 end C12
